@@ -75,8 +75,14 @@ func validateModel(c *mon.Ctx) bool {
 		}
 		ok++
 	}
-	c.Info("model_vectors_reproduced", ok)
-	c.Info("model_vectors_skipped_signature", skipped)
+	c.Info("script_model_vectors_reproduced", ok)
+	c.Info("script_model_vectors_needing_signatures", skipped)
+	sigOK, sigWrong, bad := validateModelSig()
+	c.Info("model_signature_vectors_reproduced_with_real_ecdsa", sigOK)
+	if sigWrong > 0 {
+		c.Fault(fmt.Sprintf("reference model disagrees with %d signature vectors of the node (first: %s)", sigWrong, bad))
+		return false
+	}
 	return ok >= 1200
 }
 
